@@ -169,6 +169,11 @@ func (r *prun) violate(rule, kind, cond, detail string) {
 		// a transport that crashes on a stored address or on a history of connections is C13's concern too
 		props = []string{"C18", "C13"}
 	}
+	if rule == "P.wrong_listener" || rule == "P.misdelivered" || rule == "P.lost" {
+		// a message that ends up with a listener the address does not name, or with none although the
+		// hand-off was reported successful, is C19's "lost or misdirected message" as well
+		props = []string{"C18", "C19"}
+	}
 	r.viol = append(r.viol, &k.Violation{Rule: rule, Props: props, Kind: kind, Cond: cond, Detail: detail, Step: r.stepNo})
 	if rule == "panic" {
 		r.logf("VIOLATION %s %s", rule, cond) // stacks carry addresses
@@ -560,6 +565,28 @@ func (r *prun) finish() {
 		case <-c.done:
 		default:
 			r.violate("P.stream_open", "connect", "stream still open after stop", fmt.Sprintf("#%d %s/%s", c.idx, c.group, c.id))
+		}
+	}
+	// whatever reached a stream in the end (also out of a buffer that was gated when the message was
+	// judged) reached a listener that was the right one when the worker took the message
+	if !r.desync {
+		for _, s := range r.msgs {
+			for _, c := range r.clients {
+				for _, w := range c.written {
+					if w != "data: "+s.body+"\n\n" {
+						continue
+					}
+					elig := false
+					for _, e := range s.mayDeliver {
+						if e == c {
+							elig = true
+						}
+					}
+					if !elig {
+						r.violate("P.wrong_listener", "send", "handed to a listener that is not the right one", fmt.Sprintf("m%d (%s to %s/%s, reported ok=%v) written to #%d %s/%s", s.idx, s.typ, s.group, s.id, s.ok, c.idx, c.group, c.id))
+					}
+				}
+			}
 		}
 	}
 }
